@@ -38,7 +38,8 @@
 
     /// adjacent ranges with equal values are coalesced
     pub open spec fn coalesced<T: Merge>(s: Seq<Ent<T>>) -> bool {
-        forall|i: int| 0 <= i < s.len() - 1 && (#[trigger] s[i]).0.end == s[i + 1].0.start ==> !s[i].1.eq_spec(&s[i + 1].1)
+        // two-variable form (j == i + 1) so that the trigger cannot loop on s[i + 1]
+        forall|i: int, j: int| 0 <= i && j == i + 1 && j < s.len() && (#[trigger] s[i]).0.end == (#[trigger] s[j]).0.start ==> !s[i].1.eq_spec(&s[j].1)
     }
 
     /// shape invariant that does not mention values (used for the `other: &IdRanges<U>` of `exclude`)
@@ -229,9 +230,9 @@
             assert forall|c: int| inr(range, c) implies #[trigger] val_at(vec@, c).eq_spec(&value) by {
                 assert(inr(s[n].0.start..range.end, c));
             }
-            assert forall|i: int| 0 <= i < vec@.len() - 1 && (#[trigger] vec@[i]).0.end == vec@[i + 1].0.start implies !vec@[i].1.eq_spec(&vec@[i + 1].1) by {
+            assert forall|i: int, j: int| 0 <= i && j == i + 1 && j < vec@.len() && (#[trigger] vec@[i]).0.end == (#[trigger] vec@[j]).0.start implies !vec@[i].1.eq_spec(&vec@[j].1) by {
                 assert(vec@[i] == s[i]);
-                assert(vec@[i + 1].1 == s[i + 1].1 && vec@[i + 1].0.start == s[i + 1].0.start);
+                assert(vec@[j].1 == s[j].1 && vec@[j].0.start == s[j].0.start);
             }
         }
     @end
@@ -239,9 +240,9 @@
             let s = old(vec)@;
             assert(vec@ == s.push((range, value)));
             lemma_push(s, (range, value));
-            assert forall|i: int| 0 <= i < vec@.len() - 1 && (#[trigger] vec@[i]).0.end == vec@[i + 1].0.start implies !vec@[i].1.eq_spec(&vec@[i + 1].1) by {
-                if i < s.len() - 1 {
-                    assert(vec@[i] == s[i] && vec@[i + 1] == s[i + 1]);
+            assert forall|i: int, j: int| 0 <= i && j == i + 1 && j < vec@.len() && (#[trigger] vec@[i]).0.end == (#[trigger] vec@[j]).0.start implies !vec@[i].1.eq_spec(&vec@[j].1) by {
+                if j < s.len() {
+                    assert(vec@[i] == s[i] && vec@[j] == s[j]);
                 }
             }
             assert forall|c: int| inr(range, c) implies #[trigger] val_at(vec@, c).eq_spec(&value) by {
